@@ -82,6 +82,7 @@ fn pace() {
 fn child_reader(path: &str, style: &str) -> ! {
     let alt = style.starts_with("alt");
     let mmap = style.ends_with("mmap");
+    let tiny = style.ends_with("tiny");
     let out = std::io::stdout();
     let conn = match rusqlite::Connection::open_with_flags(
         path,
@@ -96,6 +97,10 @@ fn child_reader(path: &str, style: &str) -> ! {
     let _ = conn.busy_timeout(std::time::Duration::ZERO);
     if mmap {
         let _: rusqlite::Result<i64> = conn.query_row("PRAGMA mmap_size = 268435456", [], |r| r.get(0));
+    }
+    if tiny {
+        // a reader with a very small page cache: most pages are re-read from the file every time
+        let _ = conn.execute_batch("PRAGMA cache_size = 5;");
     }
     let mut counts: BTreeMap<String, u64> = BTreeMap::new();
     let mut rec = |phase: &str, kind: &str, r: Result<String, String>| {
@@ -1306,7 +1311,7 @@ fn exec_op(w: &mut World, toks: &[&str]) -> String {
             _ => "bad-op".into(),
         },
         ["race", snap, dst, keep, n, style] => match (pu(snap), pu(dst), parse_keep(keep), n.parse::<usize>()) {
-            (Some(k), Some(d), Some(keep), Ok(n)) if (1..=4).contains(&n) && ["plain", "mmap", "alt", "altmmap"].contains(style) => {
+            (Some(k), Some(d), Some(keep), Ok(n)) if (1..=4).contains(&n) && ["plain", "mmap", "alt", "altmmap", "tiny", "alttiny"].contains(style) => {
                 w.restore(k, d, keep, How::Race(n, style))
             }
             _ => "bad-op".into(),
@@ -1646,7 +1651,7 @@ impl Prop for C19 {
             }
         };
         if racy {
-            ops.push(format!("race 0 {dst} {keep} {} {}", rng.range(1, 3), rng.pick(&["plain", "mmap", "alt", "altmmap"])));
+            ops.push(format!("race 0 {dst} {keep} {} {}", rng.range(1, 3), rng.pick(&["plain", "mmap", "alt", "altmmap", "tiny", "alttiny"])));
         } else if rng.chance(1, 5) {
             ops.push(format!("trace 0 {dst} {keep}"));
         } else {
